@@ -395,6 +395,7 @@ func runC07(p *core.Prog, r *core.Report) {
 			})
 		}
 		r.Check(len(hits) == 0, "C07.R4", "storage/direct-file-writes", "no function of the storage packages creates, writes or renames files directly", strings.Join(hits, "; "))
+		checkFreshReaderPerAttempt(p, r, "C07.R4")
 		r.Check(nWrite >= 3, "C07.R4", "storage/WriteObject", "store snapshots, cached outputs and indexes are written with dstore WriteObject", fmt.Sprintf("%d WriteObject call sites", nWrite))
 	})
 
